@@ -6,6 +6,8 @@ import Pxv.Driver.Session
 import Pxv.Driver.ReqData
 import Pxv.Driver.Config
 import Pxv.Driver.Ty
+import Pxv.Driver.Domain
+import Pxv.Driver.Bp
 open Pxv.Driver
 
 def main (args : List String) : IO UInt32 := do
@@ -18,4 +20,6 @@ def main (args : List String) : IO UInt32 := do
   | ["reqdata"] => serve Pxv.ReqData.handle; return 0
   | ["config"] => serve Pxv.Config.handle; return 0
   | ["ty"] => serve Pxv.Ty.handle; return 0
+  | ["domain"] => serve Pxv.Domain.handle; return 0
+  | ["bp"] => serve Pxv.Bp.handle; return 0
   | _ => IO.eprintln "usage: pxmodel <model>"; return 2
